@@ -7,6 +7,7 @@ import (
 	"encoding/json"
 	"flag"
 	"fmt"
+	"math/rand"
 	"strconv"
 	"strings"
 
@@ -20,11 +21,15 @@ import (
 // set that performs them, builds it, runs it twice with the same variables and logs the rendered
 // bytes, UsedVars() and the caller-side variables.  It computes no expected value.
 //
-//	case {id, sup:"value"|"pointer", ext:bool, init:[vX,vY], refs:[{sc,op,var,hoist,v}]}
+//	case {id, typ:"int"|"any", sup:"value"|"pointer", ext:bool, init:[vX,vY], refs:[{sc,op,var,hoist,v,nest,join}]}
 //	sc:  top | macro | closure | imported | rendered | layout | extending | pkgvar
-//	op:  "r" prints [sc:value]; "w" assigns v
+//	op:  "r" prints [sc:value]; "d" prints [sc:value] through `X default 7`; "w" assigns v
 //	hoist=1 (macro, closure): the declaration is the first thing of the file body instead of being
 //	      just before its use, i.e. the compiler meets that reference first.
+//	nest: 1 the access is inside a function literal declared where the access would be, 2 inside a macro
+//	      declared there (tags [sc-c:..] / [sc-m:..])
+//	join=1: the access is appended to the macro / file of the previous reference (same sc), which is
+//	      called / rendered once
 //
 // ext=false: index.html is the body.  ext=true: index.html extends layout.html, layout.html is the
 // body and the "extending" references are macros declared by index.html and called by the layout.
@@ -36,10 +41,13 @@ type c17Ref struct {
 	Var   string `json:"var"`
 	Hoist int    `json:"hoist"`
 	V     int    `json:"v"`
+	Nest  int    `json:"nest"`
+	Join  int    `json:"join"`
 }
 
 type c17Case struct {
 	ID   int      `json:"id"`
+	Typ  string   `json:"typ"`
 	Sup  string   `json:"sup"`
 	Ext  bool     `json:"ext"`
 	Init []int    `json:"init"`
@@ -49,24 +57,79 @@ type c17Case struct {
 // -files: also log the synthesised sources (used for samples and replays; too bulky for whole runs)
 var flagFiles = flag.Bool("files", false, "log the synthesised template sources")
 
-func access(r c17Ref) string {
-	if r.Op == "w" {
-		return "{% " + r.Var + " = " + strconv.Itoa(r.V) + " %}"
+func tag(r c17Ref) string {
+	switch r.Nest {
+	case 1:
+		return r.Sc + "-c"
+	case 2:
+		return r.Sc + "-m"
 	}
-	return "[" + r.Sc + ":{{ " + r.Var + " }}]"
+	return r.Sc
+}
+
+// direct is the access written in template text.
+func direct(r c17Ref) string {
+	switch r.Op {
+	case "w":
+		return "{% " + r.Var + " = " + strconv.Itoa(r.V) + " %}"
+	case "d":
+		return "[" + tag(r) + ":{{ " + r.Var + " default 7 }}]"
+	}
+	return "[" + tag(r) + ":{{ " + r.Var + " }}]"
+}
+
+// closure returns the declaration of a function literal named name that performs the access (depth-1
+// further literals inside it) and the text that calls it.
+func closure(c *c17Case, r c17Ref, name string, depth int) (decl, use string) {
+	if r.Op == "w" {
+		body := r.Var + " = " + strconv.Itoa(r.V)
+		if depth == 2 {
+			body = "g := func() { " + body + " }; g()"
+		}
+		return "{% " + name + " := func() { " + body + " } %}", "{% " + name + "() %}"
+	}
+	body := "return " + r.Var
+	if depth == 2 {
+		body = "g := func() " + c.Typ + " { " + body + " }; return g()"
+	}
+	return "{% " + name + " := func() " + c.Typ + " { " + body + " } %}", "[" + tag(r) + ":{{ " + name + "() }}]"
+}
+
+// access is the access of reference k (0-based) as written inside its macro / file / body.
+func access(c *c17Case, r c17Ref, k int) string {
+	i := strconv.Itoa(k + 1)
+	switch r.Nest {
+	case 1:
+		decl, use := closure(c, r, "G"+i, 1)
+		return decl + use
+	case 2:
+		return "{% macro N" + i + " %}" + direct(r) + "{% end %}{{ N" + i + "() }}"
+	}
+	return direct(r)
 }
 
 func synth(c *c17Case) scriggo.Files {
 	var imports, head, body, imported, extending strings.Builder
 	files := scriggo.Files{}
 	hasImported, hasPkg := false, false
-	for k, r := range c.Refs {
+	n := len(c.Refs)
+	for k := 0; k < n; k++ {
+		r := c.Refs[k]
 		i := strconv.Itoa(k + 1)
+		// the members of the container that starts at k
+		content := access(c, r, k)
+		last := k
+		if r.Sc == "macro" || r.Sc == "imported" || r.Sc == "rendered" || r.Sc == "extending" {
+			for last+1 < n && c.Refs[last+1].Join == 1 {
+				last++
+				content += access(c, c.Refs[last], last)
+			}
+		}
 		switch r.Sc {
 		case "top", "layout":
-			body.WriteString(access(r))
+			body.WriteString(content)
 		case "macro":
-			decl := "{% macro M" + i + " %}" + access(r) + "{% end %}"
+			decl := "{% macro M" + i + " %}" + content + "{% end %}"
 			if r.Hoist == 1 {
 				head.WriteString(decl)
 			} else {
@@ -74,14 +137,7 @@ func synth(c *c17Case) scriggo.Files {
 			}
 			body.WriteString("{{ M" + i + "() }}")
 		case "closure":
-			var decl, use string
-			if r.Op == "w" {
-				decl = "{% F" + i + " := func() { " + r.Var + " = " + strconv.Itoa(r.V) + " } %}"
-				use = "{% F" + i + "() %}"
-			} else {
-				decl = "{% F" + i + " := func() int { return " + r.Var + " } %}"
-				use = "[closure:{{ F" + i + "() }}]"
-			}
+			decl, use := closure(c, r, "F"+i, 1+r.Nest)
 			if r.Hoist == 1 {
 				head.WriteString(decl)
 			} else {
@@ -90,13 +146,13 @@ func synth(c *c17Case) scriggo.Files {
 			body.WriteString(use)
 		case "imported":
 			hasImported = true
-			imported.WriteString("{% macro I" + i + " %}" + access(r) + "{% end %}")
+			imported.WriteString("{% macro I" + i + " %}" + content + "{% end %}")
 			body.WriteString("{{ I" + i + "() }}")
 		case "rendered":
-			files["partial"+i+".html"] = []byte(access(r))
+			files["partial"+i+".html"] = []byte(content)
 			body.WriteString("{{ render \"partial" + i + ".html\" }}")
 		case "extending":
-			extending.WriteString("{% macro E" + i + " %}" + access(r) + "{% end %}")
+			extending.WriteString("{% macro E" + i + " %}" + content + "{% end %}")
 			body.WriteString("{{ E" + i + "() }}")
 		case "pkgvar":
 			hasPkg = true
@@ -106,6 +162,7 @@ func synth(c *c17Case) scriggo.Files {
 				body.WriteString("{% if p.X == -1 %}{% end %}")
 			}
 		}
+		k = last
 	}
 	if hasImported {
 		imports.WriteString("{% import \"imported.html\" %}")
@@ -124,8 +181,16 @@ func synth(c *c17Case) scriggo.Files {
 	return files
 }
 
+// asInt logs the caller's variable of type any: its int, or -1 when it no longer holds an int.
+func asInt(v any) int {
+	if i, ok := v.(int); ok {
+		return i
+	}
+	return -1
+}
+
 func run(c *c17Case) (rec map[string]any) {
-	rec = map[string]any{"id": c.ID, "sup": c.Sup, "ext": c.Ext, "init": c.Init, "refs": c.Refs,
+	rec = map[string]any{"id": c.ID, "typ": c.Typ, "sup": c.Sup, "ext": c.Ext, "init": c.Init, "refs": c.Refs,
 		"out1": []int{}, "out2": []int{}, "used": []string{}, "caller1": []int{}, "caller2": []int{}, "err": ""}
 	stage := "build"
 	defer func() {
@@ -143,8 +208,12 @@ func run(c *c17Case) (rec map[string]any) {
 		rec["files"] = src
 	}
 	px := 77
+	globals := native.Declarations{"X": (*int)(nil), "Y": (*int)(nil)}
+	if c.Typ == "any" {
+		globals = native.Declarations{"X": (*any)(nil), "Y": (*any)(nil)}
+	}
 	opts := &scriggo.BuildOptions{
-		Globals:  native.Declarations{"X": (*int)(nil), "Y": (*int)(nil)},
+		Globals:  globals,
 		Packages: native.Packages{"p": native.Package{Name: "p", Declarations: native.Declarations{"X": &px}}},
 	}
 	t, err := scriggo.BuildTemplate(files, "index.html", opts)
@@ -159,10 +228,14 @@ func run(c *c17Case) (rec map[string]any) {
 	}
 	rec["used"] = used
 	cx, cy := c.Init[0], c.Init[1]
+	var ax, ay any = c.Init[0], c.Init[1]
 	var vars map[string]any
-	if c.Sup == "pointer" {
+	switch {
+	case c.Sup == "pointer" && c.Typ == "any":
+		vars = map[string]any{"X": &ax, "Y": &ay}
+	case c.Sup == "pointer":
 		vars = map[string]any{"X": &cx, "Y": &cy}
-	} else {
+	default:
 		vars = map[string]any{"X": cx, "Y": cy}
 	}
 	stage = "run"
@@ -170,7 +243,11 @@ func run(c *c17Case) (rec map[string]any) {
 		var buf bytes.Buffer
 		err = t.Run(&buf, vars, nil)
 		rec["out"+strconv.Itoa(n)] = drv.Ints(buf.Bytes())
-		rec["caller"+strconv.Itoa(n)] = []int{cx, cy}
+		if c.Typ == "any" {
+			rec["caller"+strconv.Itoa(n)] = []int{asInt(ax), asInt(ay)}
+		} else {
+			rec["caller"+strconv.Itoa(n)] = []int{cx, cy}
+		}
 		if err != nil {
 			rec["outcome"] = "runerror"
 			rec["err"] = err.Error()
@@ -181,6 +258,66 @@ func run(c *c17Case) (rec map[string]any) {
 	return rec
 }
 
+// extra returns n seeded random cases (ids from 1000000) over the whole alphabet, longer than the exhaustive
+// space: 3 to 5 references to one or two globals.  Every field is echoed in the observation.
+func extra(seed int64, n int) []json.RawMessage {
+	rnd := rand.New(rand.NewSource(seed))
+	var out []json.RawMessage
+	for len(out) < n {
+		c := c17Case{ID: 1000000 + len(out), Init: []int{5, 6}, Ext: rnd.Intn(2) == 1}
+		switch rnd.Intn(3) {
+		case 0:
+			c.Typ, c.Sup = "int", "value"
+		case 1:
+			c.Typ, c.Sup = "int", "pointer"
+		default:
+			c.Typ, c.Sup = "any", "pointer"
+		}
+		scopes := []string{"top", "macro", "closure", "imported", "rendered", "pkgvar", "macro", "imported"}
+		if c.Ext {
+			scopes = []string{"layout", "extending", "macro", "closure", "imported", "rendered", "pkgvar", "macro", "extending"}
+		}
+		ln := 3 + rnd.Intn(3)
+		twoVars := rnd.Intn(2) == 1
+		for k := 0; k < ln; k++ {
+			r := c17Ref{Var: "X", Op: []string{"r", "r", "d", "w", "w"}[rnd.Intn(5)]}
+			if twoVars && rnd.Intn(2) == 1 {
+				r.Var = "Y"
+			}
+			if k > 0 && rnd.Intn(3) == 0 {
+				p := c.Refs[k-1]
+				if p.Sc == "macro" || p.Sc == "imported" || p.Sc == "rendered" || p.Sc == "extending" {
+					r.Sc, r.Hoist, r.Join = p.Sc, p.Hoist, 1
+				}
+			}
+			if r.Join == 0 {
+				r.Sc = scopes[rnd.Intn(len(scopes))]
+				if r.Sc == "macro" || r.Sc == "closure" {
+					r.Hoist = rnd.Intn(2)
+				}
+			}
+			switch r.Sc {
+			case "macro", "imported", "rendered", "extending":
+				r.Nest = rnd.Intn(3)
+			case "closure":
+				r.Nest = rnd.Intn(2)
+			case "pkgvar":
+				r.Op, r.Var = "r", "X"
+			}
+			if r.Op == "d" && (r.Nest == 1 || r.Sc == "closure") {
+				r.Op = "r"
+			}
+			if r.Op == "w" {
+				r.V = 10 + k + 1
+			}
+			c.Refs = append(c.Refs, r)
+		}
+		m, _ := json.Marshal(c)
+		out = append(out, m)
+	}
+	return out
+}
+
 func main() {
 	drv.Main(&drv.Sub{
 		Each: func(raw json.RawMessage, seed int64) []any {
@@ -188,5 +325,6 @@ func main() {
 			drv.Must(json.Unmarshal(raw, &c))
 			return []any{run(&c)}
 		},
+		Extra: extra,
 	})
 }
